@@ -218,6 +218,15 @@ def gen_cases(ctx):
             c = mk_case(rng, d, [rand_meta(rng, d) for _ in range(n)], ["device", "mixed", "none"][j % 3], "append")
             c["split"] = rng.randrange(1, n)
             cases.append(c)
+        # the connector is stopped and started again (or its sniffing mode re-enabled) in the
+        # middle of the replay: start / k packets / stop / start / ... / rest
+        for j in range(12 if ctx.thorough else 4):
+            n = rng.choice([4, 6, 9, 14])
+            c = mk_case(rng, d, [rand_meta(rng, d) for _ in range(n)], ["device", "mixed", "none", "device"][j % 4], "restart")
+            op = ["stop_start", "reconfigure"][j % 2]
+            ks = sorted(rng.sample(range(1, n), rng.choice([1, 1, 2, 3]) if n > 4 else 1))
+            c["restarts"] = [[k, op] for k in ks]
+            cases.append(c)
         # the wall clock of the replaying host steps backwards during the replay: must not matter
         for j in range(6 if ctx.thorough else 2):
             c = mk_case(rng, d, [rand_meta(rng, d) for _ in range(rng.choice([3, 5, 8]))], ["device", "mixed"][j % 2], "replay-clock-backwards")
@@ -334,6 +343,9 @@ def judge_case(case, res, report):
     ins = res["in"]
     A = [a_items(d, a) for a in res["A"]]
     B = res["B"]
+    for k, op in res.get("ops_done") or []:
+        if (op.startswith("!") or op == "gate-not-reached") and all(inq):
+            report("stopping / starting the connector after %d packets: %s" % (k, op), None, {"after": k, "op": op})
     if res.get("replay_thread_exc") and all(inq):
         report("the replay thread raised %s" % res["replay_thread_exc"], None, {"exc": res["replay_thread_exc"]})
     for stage, got in (("file", res["written"]), ("A", A), ("B", B)):
@@ -411,6 +423,11 @@ def capture_term(case, res, hub):
             khz = -1
         obs.append("(%s, %s, %s, %s, %s, %s)" % (cZ(res["written"][i][0]), copt(khz, cZ), cbytes(bytes.fromhex(A[i]["bytes"])), c_out_meta(d, A[i]),
                                                  cbytes(bytes.fromhex(res["B"][i]["bytes"])), c_out_meta(d, res["B"][i])))
+    if case.get("restarts"):
+        pos = [0] + [k for k, _op in case["restarts"]]
+        ks = [C.cnat(pos[i + 1] - pos[i]) for i in range(len(pos) - 1)]
+        return "(%s, (%s, %s), %s, %s, %s)" % (COQ_DOM[d], cbool(hub["ble_rssi_optional"]), cbool(hub["ble_crc_optional"]),
+                                             clist(pins), clist(ks), clist(obs))
     k = case.get("split")
     if k:
         return "(%s, (%s, %s), %s, %s, %s)" % (COQ_DOM[d], cbool(hub["ble_rssi_optional"]), cbool(hub["ble_crc_optional"]),
@@ -553,6 +570,7 @@ def compose_requests():
 
 def strip_case(c):
     return {"domain": c["domain"], "clock": c["clock"], "replay_clock": c.get("replay_clock"), "split": c.get("split"),
+            "restarts": c.get("restarts"),
             "pkts": [{k: v for k, v in p.items() if k != "frames"} for p in c["pkts"]]}
 
 
@@ -560,7 +578,7 @@ def _drive(cases, maps, tag):
     tmp = "/var/tmp/C19-%s-%d" % (tag, os.getpid())
     try:
         req = {"tmp": tmp, "maps": maps or {}, "hub_probe": True,
-               "cases": [{"domain": c["domain"], "clock": c["clock"], "pkts": c["pkts"], "replay_clock": c.get("replay_clock"), "split": c.get("split")} for c in cases]}
+               "cases": [{"domain": c["domain"], "clock": c["clock"], "pkts": c["pkts"], "replay_clock": c.get("replay_clock"), "split": c.get("split"), "restarts": c.get("restarts")} for c in cases]}
         return C.run_impl("C19.py", req)
     finally:
         shutil.rmtree(tmp, ignore_errors=True)
@@ -684,7 +702,7 @@ def run(ctx):
                 continue
             # an unlisted failure: shrink and report (at most 2 replays per kind of failure)
             reported[what] = reported.get(what, 0) + 1
-            if reported[what] > 2:
+            if reported[what] > 2 or len(ctx.violations) >= 6:
                 continue
             def pred(c, rs, what=what, key=key):
                 fs = []
@@ -713,21 +731,26 @@ def run(ctx):
         pre_model = 'Add LoadPath "%s" as C19alt.\nFrom Whad Require Import Lib.Bytes.\nFrom C19alt Require Import Maps Model.\nOpen Scope N_scope.' % tr["alt"]
     else:
         pre_model = "From Whad Require Import Lib.Bytes C19.Maps C19.Model.\nOpen Scope N_scope."
-    cap_terms, cap_idx, spl_terms, spl_idx = [], [], [], []
+    cap_terms, cap_idx, spl_terms, spl_idx, ops_terms, ops_idx = [], [], [], [], [], []
     for ci, (case, res) in enumerate(zip(cases, res_cases)):
         if "exc" in res or res.get("replay_thread_exc"):
             continue
         if not (len(res["A"]) == len(res["B"]) == len(res["written"]) == len(case["pkts"])):
             continue
-        if case.get("split"):
+        if case.get("restarts"):
+            ops_terms.append(capture_term(case, res, hub)); ops_idx.append(ci)
+        elif case.get("split"):
             spl_terms.append(capture_term(case, res, hub)); spl_idx.append(ci)
         else:
             cap_terms.append(capture_term(case, res, hub)); cap_idx.append(ci)
     bad_cap, logs_cap = C.run_cases(PID, "capture", pre_model, "domain * (bool * bool) * list pin * list obs", cap_terms, "check_capture", shard=60)
     bad_spl, logs_spl = (C.run_cases(PID, "append", pre_model, "domain * (bool * bool) * list pin * list pin * list obs", spl_terms, "check_capture_split", shard=60)
                          if spl_terms else ([], []))
-    bad_cap, cap_idx, logs_cap = bad_cap + [len(cap_idx) + b for b in bad_spl], cap_idx + spl_idx, logs_cap + logs_spl
-    cap_terms = cap_terms + spl_terms
+    bad_ops, logs_ops = (C.run_cases(PID, "restart", pre_model, "domain * (bool * bool) * list pin * list nat * list obs", ops_terms, "check_capture_ops", shard=60)
+                         if ops_terms else ([], []))
+    bad_cap = bad_cap + [len(cap_idx) + b for b in bad_spl] + [len(cap_idx) + len(spl_idx) + b for b in bad_ops]
+    cap_idx, logs_cap = cap_idx + spl_idx + ops_idx, logs_cap + logs_spl + logs_ops
+    cap_terms = cap_terms + spl_terms + ops_terms
     mal_terms = ["(%s, %s)" % (COQ_DOM[c["domain"]], c_in_meta(c["domain"], c["pkts"][0]["meta"])) for c, res in zip(malformed, res_mal) if "exc" in res]
     bad_mal, logs_mal = C.run_cases(PID, "unenc", pre_model, "domain * meta", mal_terms, "check_unencodable") if mal_terms else ([], [])
     # maps: generated definitions vs live functions
@@ -830,6 +853,7 @@ def replay(payload):
         c = dict(case["case"], kind=case.get("kind", "device"), label="replay")
         c["replay_clock"] = case["case"].get("replay_clock")
         c["split"] = case["case"].get("split")
+        c["restarts"] = case["case"].get("restarts")
         r = run_driver([c], tag="replay")
         res = r["cases"][0]
         print("implementation now gives:", json.dumps(res)[:3000])
